@@ -1,0 +1,36 @@
+//go:build verif
+
+package traversal
+
+// Read-only view of an Operation for the verification harness. Taken under op.mu, so a caller
+// that has seen a snapshot also has a happens-before edge with every earlier critical section.
+type VerifSnapshot struct {
+	Outstanding int
+	Unqueried   int
+	Queried     int
+	Closest     int
+	HaveQuery   bool
+	Stopping    bool
+	Stopped     bool
+}
+
+func (op *Operation) VerifSnapshot() (ret VerifSnapshot) {
+	op.mu.Lock()
+	defer op.mu.Unlock()
+	ret.Outstanding = op.outstanding
+	ret.Unqueried = op.unqueried.Len()
+	ret.Queried = len(op.queried)
+	ret.Closest = op.closest.Len()
+	ret.HaveQuery = op.haveQueryNoMutate()
+	ret.Stopping = op.stopping.IsSet()
+	ret.Stopped = op.stopped.IsSet()
+	return
+}
+
+// Same answer haveQuery would give in the run loop, computed without touching the frontier: heads
+// whose address was already queried are skipped rather than removed.
+func (op *Operation) haveQueryNoMutate() bool {
+	saved := op.unqueried
+	defer func() { op.unqueried = saved }()
+	return op.haveQuery()
+}
